@@ -8,6 +8,7 @@ import (
 	"bytes"
 	"context"
 	"crypto/sha256"
+	"encoding/binary"
 	"errors"
 	"fmt"
 	"io"
@@ -328,6 +329,11 @@ func Run(c *common.Ctx) error {
 			return err
 		}
 	}
+	for i := 0; i < c.Pick(4, 8); i++ {
+		if err := journalWritesAfterDemotion(c, c.Rng.Fork(), i); err != nil {
+			return err
+		}
+	}
 	return nil
 }
 
@@ -496,6 +502,118 @@ func expiredHolderCommits(c *common.Ctx, r *common.Rand, idx int) error {
 	}
 	if ex := append(p.Exits(), rn.Exits()...); len(ex) > 0 {
 		c.Violate(key+":exit", fmt.Sprintf("a node called Exit(%v)", ex), rep)
+	}
+	return nil
+}
+
+// journalWritesAfterDemotion: a primary that used journal_mode=PERSIST (the journal file stays, its header zeroed) or
+// TRUNCATE is demoted; every kind of write to the journal through the mount - a new header, a page record, the
+// 28 zero bytes with which PERSIST mode commits - is refused with the read-only permission error, and nothing changes.
+// Likewise a drop that is under way when the role is lost publishes nothing.
+func journalWritesAfterDemotion(c *common.Ctx, r *common.Rand, idx int) error {
+	dir, err := os.MkdirTemp(c.OutDir, "c07j-")
+	if err != nil {
+		return err
+	}
+	defer os.RemoveAll(dir)
+	clu := cluster.New(dir, 2*time.Second)
+	defer clu.Close()
+	ros := &lfs.RecOS{}
+	clu.Opts = func(name string, s *litefs.Store) {
+		s.DemoteDelay = 2500 * time.Millisecond
+		if name == "p" {
+			s.OS = ros
+		}
+	}
+	p, err := clu.Start("p", true)
+	if err != nil {
+		return err
+	}
+	if clu.WaitPrimary(5*time.Second) == nil {
+		return fmt.Errorf("no primary")
+	}
+	h := hist.NewOn(c, r.Fork(), hist.Config{PageSize: 512}, p.Store, p.Exits, "db", nil, 0, false)
+	for i, st := range []hist.Step{
+		{Op: "rtx", Writes: map[uint32]uint64{1: 1, 2: 2, 3: 3}, NewSize: 3, JMode: 2},
+		{Op: "rtx", Writes: map[uint32]uint64{2: 12}, NewSize: 3, JMode: 2},
+	} {
+		if ob := h.Exec(st); ob.Err != "" || ob.Panic != "" {
+			return fmt.Errorf("setup step %d: %s%s", i, ob.Err, ob.Panic)
+		}
+	}
+	db := p.Store.DB("db")
+	if _, err := os.Stat(db.JournalPath()); err != nil {
+		return fmt.Errorf("no persistent journal: %v", err)
+	}
+	lose := func() {
+		if idx%2 == 0 {
+			p.Store.Demote()
+		} else {
+			clu.Svc.Revoke()
+		}
+		deadline := time.Now().Add(4 * time.Second)
+		for p.Store.IsPrimary() && time.Now().Before(deadline) {
+			time.Sleep(time.Millisecond)
+		}
+	}
+	if idx%4 >= 2 {
+		// a drop is under way (its transaction file is being created) when the role is lost
+		before := snapshot(p, "db")
+		ros.Before = func(call lfs.OSCall) {
+			if call.Op == "DROP:LTX" && call.Fn == "create" {
+				lose()
+			}
+		}
+		derr := db.Drop(ctx)
+		ros.Before = nil
+		after := snapshot(p, "db")
+		c.Evaluations++
+		c.Distinct(fmt.Sprintf("drop-at-demotion:%d", idx%2))
+		rep := map[string]any{"kind": "readonly-drop-demotion", "drop_error": fmt.Sprint(derr)}
+		if p.Store.IsPrimary() {
+			c.Count("demotion_not_effective", 1)
+			return nil
+		}
+		if after != before {
+			c.Violate("C07:drop-at-demotion:published", fmt.Sprintf("a drop that was under way when the node lost write authority was published: %+v -> %+v (Drop answered %v)", before, after, derr), rep)
+		} else if derr == nil {
+			c.Violate("C07:drop-at-demotion:accepted", "a drop that was under way when the node lost write authority reported success", rep)
+		}
+		return nil
+	}
+	lose()
+	if p.Store.IsPrimary() {
+		c.Count("demotion_not_effective", 1)
+		return nil
+	}
+	m := newMount(p.Dir, p.Store)
+	hdr := make([]byte, 28)
+	copy(hdr, "\xd9\xd5\x05\xf9\x20\xa1\x63\xd7")
+	binary.BigEndian.PutUint32(hdr[8:], 1)
+	binary.BigEndian.PutUint32(hdr[16:], 3)
+	binary.BigEndian.PutUint32(hdr[20:], 512)
+	binary.BigEndian.PutUint32(hdr[24:], 512)
+	for _, w := range []struct {
+		what string
+		off  int64
+		data []byte
+	}{
+		{"a journal header", 0, hdr},
+		{"a page record", 512, r.Bytes(520)},
+		{"the 28 zero bytes of a PERSIST-mode commit", 0, make([]byte, 28)},
+	} {
+		before := snapshot(p, "db")
+		errno, _ := m.exec(handlerOp{Handler: "HWriteJournal", DB: "db", Arg: w.off}, 77, 512, w.data)
+		after := snapshot(p, "db")
+		c.Evaluations++
+		c.Distinct("journal-write-after-demotion:" + w.what)
+		rep := map[string]any{"kind": "readonly-journal-write", "what": w.what, "errno": errno}
+		if after != before {
+			c.Violate("C07:journal-write-after-demotion:changed", fmt.Sprintf("writing %s to the journal of a demoted primary changed the database: %+v -> %+v", w.what, before, after), rep)
+		}
+		if errno != int(syscall.EACCES) {
+			c.Violate("C07:journal-write-after-demotion:errno", fmt.Sprintf("writing %s to the journal of a demoted primary answered errno %d, want the read-only permission error EACCES (13)", w.what, errno), rep)
+		}
 	}
 	return nil
 }
